@@ -306,8 +306,10 @@ func genType(rng *rand.Rand, o GenOpts, depth int, anon int) *Type {
 			}
 			if o.StructPool != nil {
 				o.StructPool.n++
+				// the counter makes names unique only if the random part does not end in a digit
+				// ("L1"+"2" = "L"+"12"): two different structs of one package must not share a name
 				base := GenIdent(rng, 4)
-				for o.BadName != nil && o.BadName(base) {
+				for (o.BadName != nil && o.BadName(base)) || (base[len(base)-1] >= '0' && base[len(base)-1] <= '9') {
 					base = GenIdent(rng, 4)
 				}
 				name = fmt.Sprintf("%s%d", base, o.StructPool.n)
